@@ -327,7 +327,8 @@ def gen_interrupt(rng, big):
             break
     # 'guard': the callback raises after its work;  'raise': before doing anything (not with clock-relative children: the
     # model's `kidsExcept` path works on entry-only callbacks)
-    kind = 'raise' if not clock_relative(base) and rng.random() < 0.5 else 'guard'
+    # (round 6: clock-relative children too - Lean loopXC / raise_eq_fuel_out_clock)
+    kind = 'raise' if rng.random() < 0.5 else 'guard'
     ops = []
     for op in base:
         if op[0] != 'evolve':
@@ -1190,6 +1191,9 @@ DIRECTED = [
     ('interrupt', [('raise', 1), ('add', 1.0, 0), ('add', 2.0, 1), ('evolve', 3.0), ('raise', 0), ('evolve', 3.0)]),
     ('interrupt', [('kids', 0, [(0.25, 0), (0.0, 1)]), ('raise', 3), ('add', 0.5, 0), ('add', 0.5 + 2 * TINY, 2), ('evolve', 2.0), ('evolve', 2.0),
                    ('raise', 0), ('evolve', 2.0)]),
+    # round 6: raising at once with clock-relative children (Lean loopXC): the clock lags by 2 TINY when the second fires
+    ('interrupt', [('kids', 0, [(0.25, 0, 'clock'), (0.0, 1, 'clock')]), ('raise', 3), ('add', 1.0, 0), ('add', 1.0 + 2 * TINY, 0), ('evolve', 2.0),
+                   ('evolve', 2.0), ('raise', 0), ('evolve', 2.0)]),
     # Lean final_clock_below_target_possible: the clock ends strictly below the target
     ('below-target', [('evolve', 2 * TINY), ('evolve', 3 * TINY), ('evolve', 5 * TINY)]),
     # the threshold itself: a stretch of exactly the double 1e-6 is not integrated, one ulp more is
@@ -1361,6 +1365,8 @@ def run(ctx):
                 ctx.count('evolves_interrupted_by_guard')
             if o['status'] == 'raised':
                 ctx.count('evolves_interrupted_by_a_callback_raising_at_once')
+                if clock_relative(ops):
+                    ctx.count('evolves_interrupted_by_raising_at_once_with_clock_relative_children')
             if real_line(o) != out[i]:
                 ctx.disagree('C20 evolve', {'ops': ops, 'T': o['T'], 'impl': real_line(o), 'model': out[i]},
                              key=('raises-index-empty-queue' if o['status'] == 'index' else None))
